@@ -833,17 +833,19 @@ class Interp:
         self.in_loop = True
         try:
             self.ev(e['body'], env)
-        except BreakExc:
+        except BreakExc as bx:
             self.in_loop = False
             self.events.append(('loop_break',))
-            return UNIT
+            v = getattr(bx, 'value', None)
+            return v if v is not None else UNIT
         self.in_loop = False
         self.events.append(('loop_continue', {v: env[v].term for v in assigned if v in env and isinstance(env[v], VBdd)}))
         raise LoopContinue()
 
     def ev_Break(self, e, env):
-        if e['value'] is not None: raise Undecidable('break with value', e['loc'])
-        raise BreakExc()
+        x = BreakExc()
+        x.value = self.ev(e['value'], env) if e['value'] is not None else None
+        raise x
 
     def ev_StaticRef(self, e, env):
         return VOpaque(('static', canon(e['def'])))
